@@ -142,10 +142,10 @@ def stepLine (e : Env) (o : Objs) (w : List String) : Objs × String :=
     match uid.toNat? >>= o.get', sid.toNat? >>= o.get' with
     | some (.un u), some (.sk k) =>
       if rv == "1" then
-        let u' := unionUpdateRv e.p u k.s
+        let u' := unionUpdateRvF e.p u k.s
         ((o.del sid.toNat?.get!).set' uid.toNat?.get! (.un u'), unObs u')
       else
-        let u' := unionUpdate e.p u k.s
+        let u' := unionUpdateF e.p u k.s
         (o.set' uid.toNat?.get! (.un u'), unObs u')
     | _, _ => (o, "bad-op")
   | ["ures", uid, nid, tt] =>
@@ -171,7 +171,7 @@ def stepLine (e : Env) (o : Objs) (w : List String) : Objs × String :=
     | _ => (o, "bad-op")
   | ["ureset", uid] =>
     match uid.toNat? >>= o.get' with
-    | some (.un u) => let u' := unionReset e.p u; (o.set' uid.toNat?.get! (.un u'), unObs u')
+    | some (.un u) => let u' := unionResetF e.p u; (o.set' uid.toNat?.get! (.un u'), unObs u')
     | _ => (o, "bad-op")
   | _ => (o, "bad-op")
 
